@@ -87,3 +87,19 @@ Example C13_nonvacuous :
     LWake 0; LEvO 0; LLock 0; LUnlock 0; LLock 0; LUnlock 0; LEvO 0; LEvO 0; LEvO 0; LTJoin 0 1; LEvO 0; LMainEnd 0;
     LDone] = true.
 Proof. vm_compute. reflexivity. Qed.
+
+(* ---- tie (a), round 9: the guards of the critical sections ARE the current C text of src/iv_work.c (MT/WorkLink2.v;
+   Gen/LeafWork.v is re-translated by gen/c2gallina.py on every run of this check) ---- *)
+From Ivv Require Import Base.CSem Gen.LeafWork MT.WorkLink2.
+Import ListNotations.
+Local Open Scope Z_scope.
+
+Theorem C13_release_test_is_the_code :
+  forall p, work_event_free (pstarted p) (zb (nilb (pdone p))) = Some (cs_free_test p).
+Proof. exact cs_free_test_is_the_code. Qed.
+Print Assumptions C13_release_test_is_the_code.
+
+Theorem C13_worker_death_is_the_code :
+  forall p w wr, int_ok (pstarted p - 1) -> cs_die_code p w wr = Some (cs_die p w wr).
+Proof. exact cs_die_is_the_code. Qed.
+Print Assumptions C13_worker_death_is_the_code.
